@@ -35,7 +35,7 @@ def main(ctx):
         for i, (c, f) in enumerate(zip(units, futs)):
             recipe.account(ctx, 'queue-design%d' % i, 'Queue', c, f.result())
     if rc != 0 or hs is None:
-        raise RuntimeError('queue driver failed (rc=%s): %s' % (rc, log[-1500:]))
+        sandbox.driver_failed('queue', rc, log)
     ctx.traces += len(hs)
     ctx.replay_steps += sum(len(h['events']) for h in hs)
     ctx.sample({'history': hs[0]['name'], 'events': hs[0]['events'][:6]})
